@@ -229,7 +229,10 @@ deriving Inhabited
 namespace World
 
 def now (w : World) : Int := w.env.now
-def fuel (w : World) : Nat := w.devs.length + 3
+/-- Recursion budget of the notification / hand-over dispatch.  A pass-through controller costs at
+most two levels (`spaceAvail` then `notifyUp`), so twice the number of devices always suffices in a
+topology without controller-only cycles (the Python code recurses without a bound). -/
+def fuel (w : World) : Nat := 2 * w.devs.length + 3
 
 def setErr (w : World) (m : String) : World :=
   match w.error with
